@@ -12,6 +12,11 @@
 (*          Integrity!ProduceOK on the bytes (format self-validation).     *)
 (*  val   - the validation functions as pure functions: the result must be *)
 (*          (Md5Digest(data) = key), MD5 being the TLA+ definition.        *)
+(*  conc  - like cache, plus "race" events: a validating read of the      *)
+(*          multi-layer cache with one operation of another user in        *)
+(*          between its looks (the reader parked at a scheduling point);   *)
+(*          judged with SafeGetP / ValidatedFlagP (Integrity section 5:    *)
+(*          ValidatedOnly holds on every interleaving).                    *)
 (*  cache - operations on a validating cache with an environment that      *)
 (*          damages the backing store; judged with the property predicates *)
 (*          of Integrity (SafeGetP, ValidatedFlagP, PutSafeP, GoneAfterP)  *)
@@ -136,7 +141,7 @@ ValEvent(e) ==
      /\ UNCHANGED <<mode, run, regs, expj, seenj, pre, devs, cnt>>
 
 \* ---------------------------------------------------------------- cache
-CacheNews == {i \in 1..Len(Rec) : Rec[i].op = "new" /\ Rec[i].part = "cache"}
+CacheNews == {i \in 1..Len(Rec) : Rec[i].op = "new" /\ Rec[i].part \in {"cache", "conc"}}
 ValTable  == IF CacheNews = {} THEN [nm \in {} |-> <<>>] ELSE Rec[IgMin(CacheNews)].vals
 CkTable   == [nm \in DOMAIN ValTable |-> Md5Digest(ValTable[nm])]       \* evaluated once (constant level)
 IsNone(c) == "none" \in DOMAIN c
@@ -158,7 +163,8 @@ CacheEvent(e) ==
   LET panic == "panic" \in DOMAIN e.res
       shape == e.seq = seq + 1 /\ "obs" \in DOMAIN e /\ Len(e.obs) = NLayers
       isPut == e.op = "put_val"
-      isGet == e.op = "get_val"
+      isRace == e.op = "race"          \* a validating read with another user's operation in between (part conc)
+      isGet == e.op = "get_val" \/ isRace
       \* ---- put_val
       putOk   == isPut /\ "ok" \in DOMAIN e.res
       matches == isPut /\ DigestOf(e.vc) = CkTable[e.ck]
@@ -170,7 +176,8 @@ CacheEvent(e) ==
       valid   == isSome /\ hasck /\ DigestOf(e.res.some) = CkTable[e.ck]
       p1      == (hasck /\ CValidating) => SafeGetP(isSome, valid)
       p2      == (hasck /\ isSome) => ValidatedFlagP(e.res.validated, valid)
-      i       == IF hasck /\ shape THEN FirstPre(e.k) ELSE 0
+      \* (the entry the read met is known from the previous observation only when nothing ran in between)
+      i       == IF hasck /\ shape /\ ~isRace THEN FirstPre(e.k) ELSE 0
       corrupt == i # 0 /\ DigestOf(PreAt(IF i = 0 THEN 1 ELSE i, e.k)) # CkTable[e.ck]
       same    == i # 0 /\ e.obs[IF i = 0 THEN 1 ELSE i][e.k] = PreAt(IF i = 0 THEN 1 ELSE i, e.k)
       p3      == (hasck /\ CValidating /\ H.comp = "ml") => GoneAfterP(corrupt, same)
@@ -187,7 +194,9 @@ CacheEvent(e) ==
                          !.puts_ok = @ + B(putOk), !.puts_refused = @ + B(isPut /\ ~putOk /\ ~matches),
                          !.damages = @ + B(e.op \in {"corrupt", "delete"} /\ "hit" \in DOMAIN e.res /\ e.res.hit),
                          !.cac_corrupt_left_in_place = @ + B(H.comp # "ml" /\ corrupt /\ same),
-                         !.gone_after_checked = @ + B(H.comp = "ml" /\ CValidating /\ corrupt)]
+                         !.gone_after_checked = @ + B(H.comp = "ml" /\ CValidating /\ corrupt),
+                         !.races = @ + B(isRace), !.races_parked = @ + B(isRace /\ e.parked),
+                         !.races_refused = @ + B(isRace /\ "err" \in DOMAIN e.res)]
      /\ pre' = IF shape THEN e.obs ELSE pre
      /\ seq' = e.seq
      /\ UNCHANGED <<mode, run, regs, expj, seenj, cnt>>
@@ -206,7 +215,7 @@ NewRun(e) ==
            /\ expj' = IF wf THEN ExpectedJudged(e, R) ELSE 0 - 1
            /\ kc' = [k0 EXCEPT !.runs_art = @ + 1, !.malformed_artifact = @ + (IF wf THEN 0 ELSE 1),
                                !.baseline_rejected = @ + (IF e.base = 2 THEN 0 ELSE 1)]
-     ELSE IF e.part = "cache" THEN
+     ELSE IF e.part \in {"cache", "conc"} THEN
         /\ regs' = {} /\ expj' = 0 - 1
         /\ kc' = [k0 EXCEPT !.runs_cache = @ + 1, !.table_mismatch = @ + (IF e.vals = ValTable /\ e.cks = CkTable THEN 0 ELSE 1)]
      ELSE /\ regs' = {} /\ expj' = 0 - 1 /\ kc' = [k0 EXCEPT !.runs_val = @ + 1]
@@ -216,7 +225,8 @@ K0 == [faults |-> 0, judged |-> 0, judged_rejected |-> 0, unjudged_accepted |-> 
        panics |-> 0, huge_allocs |-> 0, produce_checked |-> 0, spec_mismatch |-> 0, runs_art |-> 0, runs_cache |-> 0,
        runs_val |-> 0, malformed_artifact |-> 0, baseline_rejected |-> 0, table_mismatch |-> 0, coverage_gap |-> 0,
        val_true |-> 0, val_false |-> 0, cache_events |-> 0, gets_valid |-> 0, gets_refused |-> 0, gets_refused_corrupt |-> 0,
-       puts_ok |-> 0, puts_refused |-> 0, damages |-> 0, cac_corrupt_left_in_place |-> 0, gone_after_checked |-> 0]
+       puts_ok |-> 0, puts_refused |-> 0, damages |-> 0, cac_corrupt_left_in_place |-> 0, gone_after_checked |-> 0,
+       races |-> 0, races_parked |-> 0, races_refused |-> 0]
 TInit == /\ l = 1 /\ mode = "none" /\ run = 1 /\ regs = {} /\ expj = 0 - 1 /\ seenj = 0 /\ seq = 0 /\ pre = <<>>
          /\ viol = <<>> /\ devs = <<>> /\ kc = K0 /\ cnt = [x \in {} |-> 0]
 
